@@ -445,3 +445,67 @@ Print Assumptions model_is_code_date_nth_of_helpers.
 Theorem model_is_code_date_nth_of : forall u p nth wd, wf_date p -> wglue_Date_nth_of u (gd_of p) nth wd = gres (d_nth_of u p nth wd).
 Proof. exact wglue_Date_nth_of_eq. Qed.
 Print Assumptions model_is_code_date_nth_of.
+
+(* ---- the model IS the code (DateTime): Gen/DateTimeNavGlue.v is TRANSLATED from src/pendulum/datetime.py on every run
+   (tools/vlib/gens/g83_datetime_nav_glue.py) on the object model gdt of Model/TzGlueObj.v; it CALLS the translated timezone glue (glue_DateTime_set / on /
+   add of Gen/TzGlue.v, sglue_start_of_day / sglue_subtract of Gen/StartEndGlue.v).  Native primitives: g_day_of_week, g_days_in_month
+   (Model/StartEndGlueObj.v), g_quarter (the translated py_Date_quarter), `dt.format("%Y-%M") == check` (g_same_ym), mc_get (the month table of the stdlib).
+   Hand-written: the `while` template of next / previous (fuel 7), the getattr dispatches nglue_first_of / nglue_last_of and the try / except of
+   nglue_nth_of (Proofs/DateTimeNavGlueFacts.v).
+   (a) tz-database zones (a Timezone object t with gz_fixed t = false, UTC included), z_* of Model/WeekdayZone.v: zobj t x is the object of the model
+       value x (its wall value, ITS fold, tz = t); wfz x = date of the supported range and time of day inside the day;  EQUALITY of results.
+   (b) naive instances and FixedTimezone instances, t_* of Model/Weekday.v (the model has no fold): Rt tzo x g = g is an object with the wall value of x
+       and tz tzo, whatever its fold; sim = both raise the same exception, or both return and the returned object represents the returned value. ---- *)
+From PV Require Import Model.StartEndGlueObj Gen.StartEndGlue Model.DateTimeNavGlueObj Gen.DateTimeNavGlue.
+From PV Require Import Proofs.DateTimeNavGlueFacts Proofs.DateTimeNavGlueZone Proofs.DateTimeNavGluePlain.
+
+Theorem model_is_code_datetime_next_previous_zone : forall t x wd keep, gz_fixed t = false -> wfz x ->
+  nglue_next (zobj t x) wd keep = zres t (z_next (gz_zone t) x wd keep) /\
+  nglue_previous (zobj t x) wd keep = zres t (z_previous (gz_zone t) x wd keep).
+Proof. intros; split; [apply nglue_next_zone|apply nglue_previous_zone]; assumption. Qed.
+Print Assumptions model_is_code_datetime_next_previous_zone.
+
+Theorem model_is_code_datetime_first_last_of_zone : forall t u x wd, gz_fixed t = false -> wfz x ->
+  nglue_first_of u (zobj t x) wd = zres t (z_first_of (gz_zone t) u x wd) /\ nglue_last_of u (zobj t x) wd = zres t (z_last_of (gz_zone t) u x wd).
+Proof. intros; split; [apply nglue_first_of_zone|apply nglue_last_of_zone]; assumption. Qed.
+Print Assumptions model_is_code_datetime_first_last_of_zone.
+
+Theorem model_is_code_datetime_first_last_of_units_zone : forall t x wd, gz_fixed t = false -> wfz x ->
+  nglue_first_of_month (zobj t x) wd = zres t (z_first_of_month (gz_zone t) x wd) /\
+  nglue_last_of_month (zobj t x) wd = zres t (z_last_of_month (gz_zone t) x wd) /\
+  nglue_first_of_quarter (zobj t x) wd = zres t (z_first_of_quarter (gz_zone t) x wd) /\
+  nglue_last_of_quarter (zobj t x) wd = zres t (z_last_of_quarter (gz_zone t) x wd) /\
+  nglue_first_of_year (zobj t x) wd = zres t (z_first_of_year (gz_zone t) x wd) /\
+  nglue_last_of_year (zobj t x) wd = zres t (z_last_of_year (gz_zone t) x wd).
+Proof. intros; apply nglue_first_of_units_zone; assumption. Qed.
+Print Assumptions model_is_code_datetime_first_last_of_units_zone.
+
+Theorem model_is_code_datetime_nth_of_zone : forall t u x nth wd, gz_fixed t = false -> wfz x ->
+  nglue_nth_of_month (zobj t x) nth wd = zreso t (z_nth_of_month (gz_zone t) x nth wd) /\
+  nglue_nth_of_quarter (zobj t x) nth wd = zreso t (z_nth_of_quarter (gz_zone t) x nth wd) /\
+  nglue_nth_of_year (zobj t x) nth wd = zreso t (z_nth_of_year (gz_zone t) x nth wd) /\
+  nglue_nth_of u (zobj t x) nth wd = zres t (z_nth_of (gz_zone t) u x nth wd).
+Proof.
+  intros; repeat split; [apply nglue_nth_of_month_zone|apply nglue_nth_of_quarter_zone|apply nglue_nth_of_year_zone|apply nglue_nth_of_zone]; assumption.
+Qed.
+Print Assumptions model_is_code_datetime_nth_of_zone.
+
+Theorem model_is_code_datetime_next_previous_plain : forall tzo x g wd keep, match tzo with None => True | Some t => gz_fixed t = true end -> Rt tzo x g ->
+  sim pdt (Rt tzo) (nglue_next g wd keep) (t_next x wd keep) /\ sim pdt (Rt tzo) (nglue_previous g wd keep) (t_previous x wd keep).
+Proof. intros; split; [apply nglue_next_plain|apply nglue_previous_plain]; assumption. Qed.
+Print Assumptions model_is_code_datetime_next_previous_plain.
+
+Theorem model_is_code_datetime_first_last_of_plain : forall tzo u x g wd, match tzo with None => True | Some t => gz_fixed t = true end -> Rt tzo x g ->
+  sim pdt (Rt tzo) (nglue_first_of u g wd) (t_first_of u x wd) /\ sim pdt (Rt tzo) (nglue_last_of u g wd) (t_last_of u x wd).
+Proof. intros; split; [apply nglue_first_of_plain|apply nglue_last_of_plain]; assumption. Qed.
+Print Assumptions model_is_code_datetime_first_last_of_plain.
+
+Theorem model_is_code_datetime_nth_of_plain : forall tzo u x g nth wd, match tzo with None => True | Some t => gz_fixed t = true end -> Rt tzo x g ->
+  simo pdt (Rt tzo) (nglue_nth_of_month g nth wd) (t_nth_of_month x nth wd) /\
+  simo pdt (Rt tzo) (nglue_nth_of_quarter g nth wd) (t_nth_of_quarter x nth wd) /\
+  simo pdt (Rt tzo) (nglue_nth_of_year g nth wd) (t_nth_of_year x nth wd) /\
+  sim pdt (Rt tzo) (nglue_nth_of u g nth wd) (t_nth_of u x nth wd).
+Proof.
+  intros; repeat split; [apply nglue_nth_of_month_plain|apply nglue_nth_of_quarter_plain|apply nglue_nth_of_year_plain|apply nglue_nth_of_plain]; assumption.
+Qed.
+Print Assumptions model_is_code_datetime_nth_of_plain.
